@@ -49,7 +49,7 @@ func main() {
 			small = append(small, e)
 		}
 	}
-	groups := c.Pick(1, 8)
+	groups := c.Pick(1, 40)
 	kinds := []string{"refresh", "refresh", "refresh", "jsonrefresh", "peerclose", "peerclose", "close", "close"}
 	from, to := c.Range(groups * len(kinds))
 	for g := from / len(kinds); g*len(kinds) < to; g++ {
